@@ -662,7 +662,8 @@ class Shape:
         sv = self.ev(n["scrut"], env, body)
         # a decoder field already matched on this path keeps the value it was matched to
         sv_obj = sv[1] if isinstance(sv, tuple) and sv[0] == "obj" and "(" in str(sv[1]) else None
-        if sv_obj is not None and ("obj", sv_obj) in self.assume:
+        unit_only = all(p.get("k") in ("Path", "Wild", "Bind") for a in n["arms"] for p in pat_leaves(a["pat"]))
+        if sv_obj is not None and ("obj", sv_obj) in self.assume and unit_only:
             sv = ("path", self.assume[("obj", sv_obj)])
             sv_obj = None
         # known scrutinee: select the arm
@@ -697,6 +698,12 @@ class Shape:
             return r
         vals, envs = [], []
         lab = "match@%s" % n.get("l")
+        # a decoder object whose variant (or whose fields' variants) were assumed: arms that contradict the assumption are infeasible
+        obj_path = sv[1] if isinstance(sv, tuple) and sv[0] == "obj" and "(" in str(sv[1]) else None
+        if obj_path is not None and any(isinstance(k_, tuple) and k_[0] == "obj" and str(k_[1]).startswith(obj_path) for k_ in self.assume):
+            feas = [a for a in arms if self.pat_feasible(a["pat"], obj_path) is not False]
+            if feas:
+                arms = feas
         for i, a in enumerate(arms):
             e1 = dict(env)
             structured = isinstance(sv, tuple) and (sv[0] == "tuple" or (sv[0] in ("obj", "ctor") and not str(sv[1]).startswith("ctor:")))
@@ -742,6 +749,32 @@ class Shape:
         if k == "TupleStruct":
             return last_seg(pat["path"].get("ctor_of") or "") in ("Some", "Ok")
         return False
+
+    def pat_feasible(self, pat, path):
+        """False if the pattern cannot match the decoder object at `path` under the current assumptions; None/True otherwise."""
+        k = pat.get("k")
+        if k in ("Wild", "Bind"):
+            return True
+        if k in ("Ref", "Deref", "Box"):
+            return self.pat_feasible(pat["p"], path)
+        if k == "Or":
+            rs = [self.pat_feasible(p, path) for p in pat["ps"]]
+            return False if all(r is False for r in rs) else True
+        if k in ("Path", "Struct", "TupleStruct"):
+            d = pat["path"].get("ctor_of") or pat["path"].get("def")
+            want = self.assume.get(("obj", path))
+            if want is not None and d is not None and want != d:
+                return False
+            if k == "Struct":
+                for f in pat["fields"]:
+                    if self.pat_feasible(f["p"], "%s.%s" % (path, f["n"])) is False:
+                        return False
+            if k == "TupleStruct":
+                for i, p in enumerate(pat["ps"]):
+                    if self.pat_feasible(p, "%s.%d" % (path, i)) is False:
+                        return False
+            return True
+        return None
 
     def pat_hit(self, pat, sv):
         k = pat.get("k")
